@@ -31,6 +31,7 @@ func init() {
 	execs["c14.verify"] = execC14Verify
 	execs["c14.v5verify"] = execC14V5Verify
 	execs["c14.decode"] = execC14Decode
+	execs["c14.expiry"] = execC14Expiry
 	gens["C14"] = genC14
 }
 
@@ -90,6 +91,7 @@ type fakeChain struct {
 	polls    []pollAnswer
 	npolls   int
 	last     pollAnswer // answer once the script is exhausted
+	sentAt   time.Time
 	asked    []ton.AccountID
 }
 
@@ -108,6 +110,7 @@ func (f *fakeChain) GetSeqno(ctx context.Context, account ton.AccountID) (uint32
 
 func (f *fakeChain) SendMessage(ctx context.Context, payload []byte) (uint32, error) {
 	f.payloads = append(f.payloads, append([]byte{}, payload...))
+	f.sentAt = time.Now()
 	if f.sendErr {
 		return 0, errors.New("scripted send error")
 	}
@@ -1221,6 +1224,92 @@ func emitDecode(c *Ctx, ver wallet.Version, root *boc.Cell, class string) sx.V {
 	return c.Emit("c14.decode", sx.L(sx.Nat(int(ver)), cellToSx(root)), class)
 }
 
+// ---- c14.expiry: CreateMessageBody x WithMessageLifetime x explicit / default ValidUntil
+
+func optZsx(p *int64) sx.V {
+	if p == nil {
+		return sx.L()
+	}
+	return sx.L(sx.Z(*p))
+}
+
+func optZfrom(v sx.V) *int64 {
+	if v.K == sx.KL && len(v.List) == 1 && v.List[0].K == sx.KZ {
+		x := v.List[0].Int.Int64()
+		return &x
+	}
+	return nil
+}
+
+func floorDiv(a, b int64) int64 {
+	q := a / b
+	if (a%b != 0) && ((a < 0) != (b < 0)) {
+		q--
+	}
+	return q
+}
+
+// the expiry a message carries, relative to the clock when no explicit expiry was asked for: the configured
+// lifetime in whole seconds when valid_until lies in [before+life, after+life], else the raw distance from `before`
+func expiryObserved(valid uint32, explicit bool, lifeNs int64, before, after time.Time) uint64 {
+	if explicit {
+		return uint64(valid)
+	}
+	lo, hi := before.Add(time.Duration(lifeNs)).Unix(), after.Add(time.Duration(lifeNs)).Unix()
+	for x := lo; x <= hi; x++ {
+		if uint32(x) == valid {
+			return uint64(uint32(floorDiv(lifeNs, 1000000000)))
+		}
+	}
+	return uint64(valid - uint32(before.Unix()))
+}
+
+// (ver pk opts life cfgvalid seqno msgs seed sendables)
+func execC14Expiry(in sx.V) sx.V {
+	l := in.List
+	ver := wallet.Version(l[0].I())
+	key := ed25519.NewKeyFromSeed(l[7].Bytes)
+	options := woptsFromSx(l[2]).options()
+	lifeNs := int64(wallet.DefaultMessageLifetime)
+	if p := optZfrom(l[3]); p != nil {
+		lifeNs = *p
+		options = append(options, wallet.WithMessageLifetime(time.Duration(lifeNs)))
+	}
+	w, err := wallet.New(key, ver, &fakeChain{}, options...)
+	if err != nil {
+		return sx.A("err")
+	}
+	cfg := wallet.MessageConfig{Seqno: uint32(l[5].U64()), V5MsgType: wallet.V5MsgTypeSignedExternal}
+	explicit := optZfrom(l[4])
+	if explicit != nil {
+		cfg.ValidUntil = time.Unix(*explicit, 0)
+	}
+	var ss []wallet.Sendable
+	for _, e := range l[8].List {
+		ss = append(ss, sendableFromSx(e).toSendable())
+	}
+	before := time.Now()
+	body, err := w.CreateMessageBody(cfg, ss...)
+	after := time.Now()
+	if err != nil {
+		return sx.A("err")
+	}
+	em, _ := ton.CreateExternalMessage(w.GetAddress(), body, nil, tlb.VarUInteger16{})
+	root := boc.NewCell()
+	if tlb.Marshal(root, em) != nil {
+		return sx.A("err")
+	}
+	d := decodeProj(ver, root)
+	if d.K != sx.KL {
+		return sx.A("err")
+	}
+	return sx.L(sx.N(expiryObserved(uint32(d.List[1].U64()), explicit != nil, lifeNs, before, after)), d.List[2], sx.Nat(len(d.List[4].List)))
+}
+
+var c14Lifetimes = []*int64{nil, i64p(30e9), i64p(1e9), i64p(86400e9), i64p(0), i64p(1500e6), i64p(-5e9), i64p(180e9), i64p(7 * 86400e9)}
+
+func i64p(f float64) *int64 { x := int64(f); return &x }
+
 // ---- generator
 
 type keptMsg struct {
@@ -1495,6 +1584,87 @@ func genC14(c *Ctx) {
 			do := emitDecode(c, k.ver, root, fmt.Sprintf("decode|envelope%d|v%d", variant, int(k.ver)))
 			if do.String() != want {
 				c.Fail("c14.decode", cellToSx(root), "c14-envelope-decode", fmt.Sprintf("own body under envelope variant %d decodes differently", variant))
+			}
+		}
+	}
+	// 5d. the default expiry: CreateMessageBody on wallets created with / without WithMessageLifetime, explicit and
+	// zero ValidUntil; and the same wallet object through SendV2: both entry points must use the configured lifetime
+	for vi, ver := range c14SendVersions {
+		for li, life := range c14Lifetimes {
+			if !c.Thorough() && (li+vi)%3 != 0 && li > 1 {
+				continue
+			}
+			for _, explicit := range []bool{false, true} {
+				if explicit && li%4 != 0 && !c.Thorough() {
+					continue
+				}
+				seed := c14Seed(r)
+				pk := ed25519.NewKeyFromSeed(seed).Public().(ed25519.PublicKey)
+				opts := randOpts(r)
+				var ms rawMsgs
+				var ssx []sx.V
+				for k := r.Intn(3); k > 0; k-- {
+					sd := randSendable(r)
+					if m, err := sd.raw(); err == nil {
+						ms = append(ms, m)
+						ssx = append(ssx, sd.sx())
+					}
+				}
+				var cfg *int64
+				if explicit {
+					v := boundaryUnix(r)
+					if v == -62135596800 {
+						v = 1
+					}
+					cfg = &v
+				}
+				in := sx.L(sx.Nat(int(ver)), sx.Bytes(pk), opts.sx(), optZsx(life), optZsx(cfg), sx.N(uint64(boundary32(r))), ms.sx(),
+					sx.Bytes(seed), sx.L(ssx...))
+				lifeName := "default"
+				if life != nil {
+					lifeName = fmt.Sprintf("%ds", *life/1000000000)
+				}
+				out := c.Emit("c14.expiry", in, fmt.Sprintf("expiry|v%d|life=%s|explicit=%v", int(ver), lifeName, explicit))
+				lifeNs := int64(wallet.DefaultMessageLifetime)
+				if life != nil {
+					lifeNs = *life
+				}
+				if out.K != sx.KL {
+					c.Fail("c14.expiry", in, "c14-create-body-failed", "CreateMessageBody failed")
+					continue
+				}
+				want := uint64(uint32(floorDiv(lifeNs, 1000000000)))
+				if explicit {
+					want = uint64(uint32(*cfg))
+				}
+				if out.List[0].U64() != want {
+					c.Fail("c14.expiry", in, "c14-default-expiry", fmt.Sprintf("CreateMessageBody signs expiry %d (relative to the clock for a default expiry), the wallet's configuration requires %d", out.List[0].U64(), want))
+				}
+				if explicit {
+					continue
+				}
+				// the same wallet object through SendV2: the other consumer of the lifetime option
+				options := opts.options()
+				if life != nil {
+					options = append(options, wallet.WithMessageLifetime(time.Duration(*life)))
+				}
+				chain := &fakeChain{}
+				chain.state.Account.SumType = "AccountNone"
+				w, err := wallet.New(ed25519.NewKeyFromSeed(seed), ver, chain, options...)
+				if err != nil {
+					continue
+				}
+				before := time.Now()
+				_, err = w.SendV2(context.Background(), 0)
+				after := time.Now()
+				if err != nil || len(chain.payloads) != 1 {
+					c.Fail("c14.expiry", in, "c14-default-expiry", "SendV2 did not send")
+					continue
+				}
+				cells, _ := boc.DeserializeBoc(chain.payloads[0])
+				if d := decodeProj(ver, cells[0]); d.K != sx.KL || expiryObserved(uint32(d.List[1].U64()), false, lifeNs, before, after) != want {
+					c.Fail("c14.expiry", in, "c14-default-expiry", "SendV2 and CreateMessageBody of one wallet disagree on the default expiry")
+				}
 			}
 		}
 	}
